@@ -96,6 +96,55 @@ def _run_scenario(item):
         return fid, (False, f"scenario error {e!r}")
 
 
+def mutant_selftest(prop: str):
+    """thorough tier: every committed seeded change that targets this property (seeded/<Cxx>-*) is
+    applied to a scratch copy of the current /repo (outside /repo, /verif and /tmp; removed as soon
+    as it is judged) and this check must reject it (exit 1)."""
+    import shutil
+    import subprocess
+    import tempfile
+
+    out = []
+    sdir = os.path.join(VERIF, "seeded")
+    for name in sorted(os.listdir(sdir)) if os.path.isdir(sdir) else []:
+        meta_p = os.path.join(sdir, name, "meta.json")
+        targets = [name[:3]]
+        if os.path.exists(meta_p):
+            try:
+                cw = json.load(open(meta_p)).get("checks_with_patch", {})
+                targets = [p_ for p_, v_ in cw.items() if v_.get("exit") == 1] or targets
+            except Exception:
+                pass
+        if prop not in targets:
+            continue
+        scratch = tempfile.mkdtemp(prefix="hc-selftest-", dir="/var/tmp")
+        rec = {"name": name}
+        try:
+            for sub in ("src", "docs", "pyproject.toml"):
+                src_ = os.path.join("/repo", sub)
+                if os.path.isdir(src_):
+                    shutil.copytree(src_, os.path.join(scratch, sub))
+                elif os.path.exists(src_):
+                    shutil.copy(src_, os.path.join(scratch, sub))
+            r = subprocess.run(["patch", "-p1", "-s", "-i", os.path.join(sdir, name, "patch.diff")], cwd=scratch, capture_output=True, text=True)
+            rec["applied"] = r.returncode == 0
+            if r.returncode != 0:
+                rec["note"] = "patch no longer applies to the current tree: " + (r.stdout + r.stderr)[-200:]
+            else:
+                env = dict(os.environ, PYVC_REPO=scratch, PYVC_EVIDENCE_DIR=os.path.join(scratch, "_evidence"), PYVC_NO_SELFTEST="1")
+                c = subprocess.run([sys.executable, "-m", "pyvc.check", prop, "--tier", "quick"], cwd=VERIF, env=env, capture_output=True, text=True, timeout=3600)
+                rec["exit"] = c.returncode
+                rec["caught"] = c.returncode == 1
+                rec["violation_lines"] = [l for l in c.stdout.splitlines() if l.startswith("VIOLATION")][:3]
+        except Exception as e:  # pragma: no cover
+            rec["applied"] = False
+            rec["note"] = f"self-test could not run: {e!r}"
+        finally:
+            shutil.rmtree(scratch, ignore_errors=True)
+        out.append(rec)
+    return out
+
+
 def run_scenarios(fs):
     items = [(f["id"], f["scenario"]) for f in fs if f.get("scenario")]
     if not items:
@@ -114,6 +163,7 @@ def main(argv=None) -> int:
     args = ap.parse_args(argv)
     prop = args.prop
     tier = args.tier if args.tier in ("quick", "thorough") else "quick"
+    os.environ["PYVC_TIER"] = tier  # read by pyvc.ctx (cvc5 cross-check sampling) in this and the worker processes
     seed = int(os.environ.get("VERIF_SEED", "0") or 0)
     t0 = time.time()
     sys.path.insert(0, VERIF)
@@ -158,6 +208,7 @@ def main(argv=None) -> int:
     undecided: List[str] = []
     named: Dict[str, Dict[str, Any]] = {}
     violations = []
+    xstats: Dict[str, int] = {}
     continue_errors: List[str] = []
     unknown_obs: List[Any] = []
     known_hits: Dict[str, List[Any]] = {}
@@ -196,6 +247,11 @@ def main(argv=None) -> int:
             d["instances"] += 1
             if getattr(ob, "backend", "z3") == "cvc5":
                 d["cvc5"] += 1
+            xc = getattr(ob, "xcheck", "")
+            if xc:
+                xstats[xc] = xstats.get(xc, 0) + 1
+                if xc == "DISAGREE":
+                    errors.append(f"solver disagreement: z3 discharged {ob.name} at {ob.where} [{' '.join(ob.path)[-200:]}] but cvc5 found a counter-model")
             d["ms"] += ob.ms
             if ob.status == "unsat":
                 continue
@@ -269,6 +325,17 @@ def main(argv=None) -> int:
                     violations.append(("standin:" + s["file"], v))
         except Exception as e:
             errors.append(f"stand-in {s['file']} crashed: {e!r}\n{traceback.format_exc()}")
+
+    # ---------------------------------------------------------------- thorough tier extras
+    thorough_info: Dict[str, Any] = {}
+    if tier == "thorough":
+        thorough_info["cvc5_crosscheck"] = {"sampling": "one obligation instance in %s (deterministic by name and path)" % os.environ.get("PYVC_XCHECK_EVERY", "7"), **xstats}
+        if not os.environ.get("PYVC_REPO") and not os.environ.get("PYVC_NO_SELFTEST"):
+            st = mutant_selftest(prop)
+            thorough_info["mutant_selftest"] = st
+            for m in st:
+                if m.get("applied") and not m.get("caught"):
+                    errors.append(f"mutant self-test: the committed seeded change {m['name']} is no longer rejected by this check (exit {m.get('exit')})")
 
     # ---------------------------------------------------------------- replay + report
     from pyvc.replay import write_replay
@@ -345,6 +412,7 @@ def main(argv=None) -> int:
             "excluded_by_known_findings": sorted(k for k, v in named.items() if v["status"] == "known-finding"),
             "known_findings": [{"id": k, "scenario_reproduces": (scen.get(k) or [None])[0], "scenario_detail": (scen.get(k) or [None, ""])[1]} for k in sorted(known_hits)],
             "bounded_standins": standins,
+            "thorough": thorough_info,
             "assumed_contracts": sorted(q for q, f in REG.fns.items() if f.assume_only and any(q.startswith(u.rsplit('.', 1)[0]) for u in units)),
             "dropped_by_extraction": "type annotations (used only to pick sorts), comments/docstrings, f-string/% formatting results (opaque), time() (fresh real), log calls (effect-free)",
             "undecided": undecided,
